@@ -34,9 +34,11 @@ REF_PRODUCERS = {'_resolve_reference_path', '_resolve_reference_paths'}
 
 
 class G:
-    __slots__ = ('pol', 'expr', 'kind')
+    """A guard: polarity, expression (substituted through call bindings),
+    and where it was written (origin function, original expression)."""
+    __slots__ = ('pol', 'expr', 'kind', 'origin', 'orig')
 
-    def __init__(self, pol, expr, kind='if'):
+    def __init__(self, pol, expr, kind='if', origin=None, orig=None):
         # normalise `not e` into the polarity
         while kind == 'if' and isinstance(expr, ast.UnaryOp) and isinstance(expr.op, ast.Not):
             expr = expr.operand
@@ -44,6 +46,8 @@ class G:
         self.pol = pol
         self.expr = expr
         self.kind = kind
+        self.origin = origin
+        self.orig = orig if orig is not None else expr
 
     def text(self):
         if self.kind != 'if':
@@ -372,7 +376,7 @@ class Effects:
                 b = bind_args(prog, f, n, g)
                 for e in effs:
                     pv = self.map_tags(e.prov, b, env, f, ctx)
-                    inner = tuple(G(x.pol, subst(x.expr, b) if x.kind == 'if' else x.expr, x.kind)
+                    inner = tuple(G(x.pol, subst(x.expr, b) if x.kind == 'if' else x.expr, x.kind, x.origin, x.orig)
                                   for x in e.guards)
                     if any(x.kind == 'if' and fold_bool(x.expr) is (not x.pol) for x in inner):
                         continue        # infeasible at this call site (constant argument)
@@ -387,12 +391,12 @@ class Effects:
                 gs = list(guards)
                 for v in e.values:
                     expr_effects(v, env, gs)
-                    gs = gs + [G(isinstance(e.op, ast.And), v)]
+                    gs = gs + [G(isinstance(e.op, ast.And), v, origin=f)]
                 return
             if isinstance(e, ast.IfExp):
                 expr_effects(e.test, env, guards)
-                expr_effects(e.body, env, list(guards) + [G(True, e.test)])
-                expr_effects(e.orelse, env, list(guards) + [G(False, e.test)])
+                expr_effects(e.body, env, list(guards) + [G(True, e.test, origin=f)])
+                expr_effects(e.orelse, env, list(guards) + [G(False, e.test, origin=f)])
                 return
             if isinstance(e, ast.Lambda):
                 return
@@ -485,20 +489,20 @@ class Effects:
                     return env, True
                 elif isinstance(s, ast.Assert):
                     expr_effects(s.test, env, guards)
-                    guards = guards + [G(True, s.test)]
+                    guards = guards + [G(True, s.test, origin=f)]
                 elif isinstance(s, ast.If):
                     expr_effects(s.test, env, guards)
                     test = expand(s.test, env)
-                    e1, r1 = block(s.body, env, guards + [G(True, test)])
-                    e2, r2 = block(s.orelse, env, guards + [G(False, test)])
+                    e1, r1 = block(s.body, env, guards + [G(True, test, origin=f)])
+                    e2, r2 = block(s.orelse, env, guards + [G(False, test, origin=f)])
                     if r1 and r2:
                         return env, True
                     if r1:
                         env = e2
-                        guards = guards + [G(False, test)]
+                        guards = guards + [G(False, test, origin=f)]
                     elif r2:
                         env = e1
-                        guards = guards + [G(True, test)]
+                        guards = guards + [G(True, test, origin=f)]
                     else:
                         env = merge_env([e1, e2])
                 elif isinstance(s, (ast.For, ast.AsyncFor)):
@@ -520,7 +524,7 @@ class Effects:
                         for x in ast.walk(tgt):
                             if isinstance(x, ast.Name):
                                 env[x.id] = set(pv2)
-                    lg = guards + [G(None, s, 'loop')]
+                    lg = guards + [G(None, s, 'loop', origin=f)]
                     e1, _ = block(s.body, env, lg)
                     e1b, _ = block(s.body, merge_env([env, e1]), lg) if False else (e1, None)
                     env = merge_env([env, e1])
@@ -528,7 +532,7 @@ class Effects:
                         env, r = block(s.orelse, env, guards)
                 elif isinstance(s, ast.While):
                     expr_effects(s.test, env, guards)
-                    e1, _ = block(s.body, env, guards + [G(None, s, 'loop'), G(True, s.test)])
+                    e1, _ = block(s.body, env, guards + [G(None, s, 'loop', origin=f), G(True, s.test, origin=f)])
                     env = merge_env([env, e1])
                 elif isinstance(s, (ast.With, ast.AsyncWith)):
                     for it in s.items:
@@ -544,7 +548,7 @@ class Effects:
                         e1, r1 = block(s.orelse, e1, guards)
                     outs = [] if r1 else [e1]
                     for h in s.handlers:
-                        eh, rh = block(h.body, merge_env([env, e1]), guards + [G(None, h, 'except')])
+                        eh, rh = block(h.body, merge_env([env, e1]), guards + [G(None, h, 'except', origin=f)])
                         if not rh:
                             outs.append(eh)
                     if s.finalbody:
